@@ -6,7 +6,10 @@ use crate::transaction::consts::T4;
 use crate::transport::{OutgoingRequest, TargetTransportInfo};
 use crate::{Endpoint, Request, Result};
 use sip_types::{CodeKind, Method};
+#[cfg(not(feature = "ezk-verif"))]
 use std::time::Instant;
+#[cfg(feature = "ezk-verif")]
+use tokio::time::Instant;
 use tokio::time::{timeout, timeout_at};
 
 /// Client non-INVITE transaction. Used to receive responses to a sent request.
